@@ -168,6 +168,10 @@ func (g *Gen) key() *string {
 var routingTags = []string{
 	`poll://g1/w1`, `poll://g2`, `http://web.test/x`, `https://web.test/y`, `tgt`, `web`, `nowhere`, `default`,
 	`{"type":"poll","data":{"group":"g3","id":"w3"}}`, `{"type":"http","data":{"url":"http://h.test/z"}}`,
+	// valid JSON that is not a receiver object: must not route
+	`123`, `true`, `null`, `"default"`, `["default"]`, `{"type":"","data":{}}`, `{"type":"poll","data":{"group":"g"},"extra":1}`, `{}`, `-1.5e3`,
+	// not JSON: plain strings
+	`{not json`, ` spaced name `, `poll://g1/w1/extra`, ``,
 }
 
 var recvs = []string{
